@@ -4,6 +4,8 @@
  * Redirects allocation *call sites in libvna source text* to a counting /
  * failing shim.  libyaml and libc keep the real allocator, which is exactly
  * the quantifier of property C12 ("allocations requested by the library").
+ * fopen() call sites are redirected to verif_fopen() (failio.c), which can
+ * deliver persistent write / read / close / open faults.
  * No change to /repo is needed.
  */
 #ifndef VERIF_FAILALLOC_H
@@ -23,6 +25,9 @@ extern void *verif_realloc(void *p, size_t n, const char *file, int line);
 extern char *verif_strdup(const char *s, const char *file, int line);
 extern int verif_vasprintf(char **strp, const char *fmt, va_list ap,
 	const char *file, int line);
+/* failio.c: fopen() that can deliver persistent I/O faults */
+extern FILE *verif_fopen(const char *path, const char *mode,
+	const char *file, int line);
 
 #ifdef VERIF_FAILALLOC
 #undef malloc
@@ -35,6 +40,8 @@ extern int verif_vasprintf(char **strp, const char *fmt, va_list ap,
 #define realloc(p, n)		verif_realloc((p), (n), __FILE__, __LINE__)
 #define strdup(s)		verif_strdup((s), __FILE__, __LINE__)
 #define vasprintf(sp, f, ap)	verif_vasprintf((sp), (f), (ap), __FILE__, __LINE__)
+#undef fopen
+#define fopen(p, m)		verif_fopen((p), (m), __FILE__, __LINE__)
 #endif /* VERIF_FAILALLOC */
 
 #endif /* VERIF_FAILALLOC_H */
